@@ -14,11 +14,19 @@ def parseIdxList (s : String) (sep : String) : Option (List Nat) :=
 
 def e2eEngine : Engine := fun inp obs =>
   match inp with
-  | [repoS, _times, refsS, argsS, rootsS, style, _layout] =>
+  | [repoS, _times, refsS, argsS, rootsS, style, layout] =>
     match parseRepo repoS, parseIdxList rootsS "." with
     | some r, some roots =>
       let nrefs := if refsS == "-" then 0 else (refsS.splitOn ",").length
       let D := reachList r roots
+      if layout.endsWith "!badroot" then
+        (match obs with
+         | ["dup"] => .ok "trivial"
+         | "setup-failed" :: _ => .bad "could not build the repository"
+         | "fail" :: "-9" :: _ => .viol "C05,C10" "git-sizer did not finish within 20 s on a repository of a few dozen objects"
+         | "fail" :: _ => .ok
+         | _ => .viol "C10,C08" "a ROOT argument that is not a single revision (X^@ / X^!) was accepted: the report's descriptions are built from a name git cannot resolve")
+      else
       match obs with
       | ["dup"] => .ok "trivial"
       | "setup-failed" :: _ => .bad "could not build the repository"
